@@ -85,6 +85,8 @@ type Contract struct {
 	Pure      bool
 	Fresh     bool // result is freshly allocated
 	Ghost     map[string]string
+	GhostParams [][2]string            // ghost parameters (name, type)
+	CallBind  map[string]map[string]*CExpr // callee -> ghost name -> expression (evaluated at the call site)
 }
 
 type Lemma struct {
@@ -233,7 +235,7 @@ func ParseContractFile(path string, cs *ContractSet) error {
 			} else if curLemma != nil {
 				curLemma.Props = ps
 			}
-		case "requires", "ensures", "decreases", "panics":
+		case "requires", "ensures", "decreases", "panics", "assumes":
 			if word == "panics" {
 				w2, r2 := splitWord(rest)
 				if w2 != "when" {
@@ -265,6 +267,9 @@ func ParseContractFile(path string, cs *ContractSet) error {
 				cur.Requires = append(cur.Requires, cl)
 			case "ensures":
 				cur.Ensures = append(cur.Ensures, cl)
+			case "assumes":
+				cl.Kind = "assumes"
+				cur.Ensures = append(cur.Ensures, cl)
 			case "decreases":
 				cur.Decreases = append(cur.Decreases, cl)
 			case "panics":
@@ -281,6 +286,36 @@ func ParseContractFile(path string, cs *ContractSet) error {
 					cur.Assigns = append(cur.Assigns, a)
 				}
 			}
+		case "ghost":
+			f := strings.Fields(rest)
+			if len(f) != 2 || cur == nil {
+				return fail("ghost name type")
+			}
+			cur.GhostParams = append(cur.GhostParams, [2]string{f[0], f[1]})
+		case "call":
+			// call <callee> <ghost> = <expr>
+			if cur == nil {
+				return fail("clause outside func")
+			}
+			eq := strings.Index(rest, "=")
+			if eq < 0 {
+				return fail("call callee ghost = expr")
+			}
+			hf := strings.Fields(rest[:eq])
+			if len(hf) != 2 {
+				return fail("call callee ghost = expr")
+			}
+			e, err := ParseCExpr(strings.TrimSpace(rest[eq+1:]))
+			if err != nil {
+				return fail(err.Error())
+			}
+			if cur.CallBind == nil {
+				cur.CallBind = map[string]map[string]*CExpr{}
+			}
+			if cur.CallBind[hf[0]] == nil {
+				cur.CallBind[hf[0]] = map[string]*CExpr{}
+			}
+			cur.CallBind[hf[0]][hf[1]] = e
 		case "trusted":
 			cur.Trusted = true
 			cur.Note = strings.TrimSpace(rest)
